@@ -53,6 +53,7 @@ def _wrap(h, NVT=NVT, sched="iter"):
 def _make():
     from . import c02, c05, c11, c20, c18, c05_sdmx
     return {
+        "sdmx_ylm_loop": (_wrap(c05_sdmx.h_ylm_loop), {}, "dft"),
         "sdmx_ao_to_bas_l1": (_wrap(c05_sdmx.h_l1), dict(ng=3), "dft"),
         "sdmx_ao_to_bas_grid": (_wrap(c05_sdmx.h_grid), dict(ng=3), "dft"),
         "sdmx_shl_to_alpha_l1": (_wrap(c05_sdmx.h_shl_alpha), dict(ng=2, nalpha=2, nsh=3), "dft"),
